@@ -462,6 +462,28 @@ def trace_process(rng, sc, with_std=True, with_fits=False, with_ref=False):
     return tr, res
 
 
+def slow_convergence(rng, sc):
+    """a weakly selective membrane against a strong back pressure (a permeate side a good part of the way to the feed side), at a
+    fine precision: the permeate-composition iteration needs tens to hundreds of passes at every step"""
+    mix = sc["mix"]
+    base, sel = gen.logu(rng, 1e-3, 0.1), rng.uniform(1.3, 8.0)
+    first_fast = rng.random() < 0.6
+    for e in sc["membrane"].ideal_experiments.experiments:
+        is_first = e.component.name == mix.first_component.name
+        e.permeance = pv.Permeance(base if is_first == first_fast else base / sel)
+    sc["prec"] = rng.choice([1e-6, 1e-7, 5e-5])
+    try:
+        pf = pv.get_partial_pressures(float(sc["T0"]), mix, pv.Composition(p=sc["x0"], type=sc["basis"]), sc["model"])
+        tot = float(pf[0] + pf[1])
+    except Exception:  # noqa: BLE001
+        return
+    if sc["mode"] == "press" and tot > 0 and math.isfinite(tot):
+        sc["pperm"] = tot * rng.uniform(0.3, 0.95)
+    elif sc["mode"] == "temp":
+        sc["Tperm"] = float(sc["T0"]) - rng.uniform(1.0, 12.0)
+    sc["removal"] = gen.logu(rng, 1e-4, 1e-2)
+
+
 def record_job(job):
     """job = (seed, n, opts) -> (traces, stats); opts: kinds, removal range, with_std"""
     import random
@@ -503,6 +525,8 @@ def record_job(job):
                 sc["Tperm"] = float(sc["T0"]) + rng.uniform(-10.0, 30.0)
             elif sc["mode"] == "press":
                 sc["pperm"] = gen.logu(rng, 0.5, 60.0)
+        if sc["mode"] != "vac" and rng.random() < opts.get("slow_p", 0.0):
+            slow_convergence(rng, sc)
         if opts.get("maxN"):
             sc["N"] = min(sc["N"], opts["maxN"])
         if pool and rng.random() < 0.25:
